@@ -4,7 +4,14 @@
 // This might be optimised in the future.
 package bytecode
 
-import "fmt"
+import (
+	"errors"
+	"fmt"
+)
+
+// ErrAddrRange is the value EncodeSrc panics with when an operand address,
+// jump distance or immediate does not fit an instruction.
+var ErrAddrRange = errors.New("srcAddr out of range")
 
 // Type is a fixed size 64 bit instruction.
 type Type uint64
@@ -155,7 +162,7 @@ func New(op OpCode) Type {
 // encoded integers.
 func EncodeSrc(srcsel int, src uint64, srcAddr int) Type {
 	if srcAddr < -(1<<(SrcChanWidth-1)) || srcAddr >= (1<<(SrcChanWidth-1)) {
-		panic("srcAddr out of range")
+		panic(ErrAddrRange)
 	}
 	addr := uint64(srcAddr)
 	switch srcsel {
